@@ -126,6 +126,10 @@ func (f *RequiredField) DoRead(r io.ReadSeeker, pg Page) (io.Reader, []int, erro
 			return nil, nil, err
 		}
 
+		if err := supportedPage(ph, false, false); err != nil {
+			return nil, nil, err
+		}
+
 		sizes = append(sizes, int(ph.DataPageHeader.NumValues))
 
 		data, err := pageData(r, ph, pg)
@@ -295,6 +299,10 @@ func (f *OptionalField) DoRead(r io.ReadSeeker, pg Page) (io.Reader, []int, erro
 			return nil, nil, err
 		}
 
+		if err := supportedPage(ph, true, f.repeated); err != nil {
+			return nil, nil, err
+		}
+
 		data, err := pageData(rc, ph, pg)
 		if err != nil {
 			return nil, nil, err
@@ -365,6 +373,25 @@ func (r *readCounter) Read(p []byte) (int, error) {
 	n, err := r.r.Read(p)
 	r.n += int64(n)
 	return n, err
+}
+
+// supportedPage returns an error for pages that can not be read: only v1 data
+// pages with PLAIN values and RLE levels are supported.
+func supportedPage(ph *sch.PageHeader, defs, reps bool) error {
+	if ph.Type != sch.PageType_DATA_PAGE || ph.DataPageHeader == nil {
+		return fmt.Errorf("unsupported page type: %s", ph.Type)
+	}
+	dph := ph.DataPageHeader
+	if dph.Encoding != sch.Encoding_PLAIN {
+		return fmt.Errorf("unsupported encoding: %s", dph.Encoding)
+	}
+	if defs && dph.DefinitionLevelEncoding != sch.Encoding_RLE {
+		return fmt.Errorf("unsupported definition level encoding: %s", dph.DefinitionLevelEncoding)
+	}
+	if reps && dph.RepetitionLevelEncoding != sch.Encoding_RLE {
+		return fmt.Errorf("unsupported repetition level encoding: %s", dph.RepetitionLevelEncoding)
+	}
+	return nil
 }
 
 func pageData(r io.Reader, ph *sch.PageHeader, pg Page) ([]byte, error) {
